@@ -1,4 +1,69 @@
-//! tracker operations (filled in with the tracker model)
-pub struct State {}
-impl State { pub fn new() -> Self { State {} } }
-pub fn op(_st: &mut State, _args: &[&str]) -> String { "BADOP".into() }
+//! tracker operations: `T reset <lat> <lon> <range>`, `T act <hex>`, `T age <ms>`, `T prune <secs>`, `T dump`
+use adsb_deku::Frame;
+use rsadsb_common::{Added, AirplaneCoor, AirplaneState, Airplanes};
+
+pub struct State { pub a: Airplanes, pub rx: (f64, f64), pub range: f64 }
+impl State { pub fn new() -> Self { State { a: Airplanes::new(), rx: (0.0, 0.0), range: 500.0 } } }
+
+fn alt(a: &Option<adsb_deku::Altitude>) -> String {
+    match a {
+        None => "-".into(),
+        Some(a) => format!("{}/{}/{}/{}/{}/{}/{}/{}", a.tc, a.ss as u8, a.saf_or_imf, a.alt.map_or("-".into(), |x| x.to_string()), a.t as u8, a.odd_flag as u8, a.lat_cpr, a.lon_cpr),
+    }
+}
+fn pos(p: &Option<adsb_deku::cpr::Position>) -> String {
+    match p { None => "-".into(), Some(p) => format!("{:.6},{:.6}", p.latitude * 1000.0, p.longitude * 1000.0) }
+}
+fn coor(c: &AirplaneCoor) -> String {
+    format!("e={} o={} pos={} kd={}", alt(&c.altitudes[0]), alt(&c.altitudes[1]), pos(&c.position), c.kilo_distance.map_or("-".into(), |d| format!("{:.6}", d)))
+}
+fn state(a: &Airplanes, k: adsb_deku::ICAO, s: &AirplaneState) -> String {
+    let vel = match (s.heading, s.speed, s.vert_speed) {
+        (Some(h), Some(sp), Some(v)) => format!("{:.4},{:.3},{}", h, sp, v),
+        (None, None, None) => "-".into(),
+        _ => "PARTIAL".into(),
+    };
+    let track = match &s.track { None => "-".into(), Some(t) => format!("[{}]", t.iter().map(|c| pos(&c.position)).collect::<Vec<_>>().join(";")) };
+    let det = a.aircraft_details(k);
+    let details = match &det { None => "-".into(), Some(d) => format!("{}/{:.6}/{}", d.altitude, d.kilo_distance, pos(&Some(d.position))) };
+    format!("{} msgs={} cs={} vel={} {} track={} details={}", k, s.num_messages, s.callsign.as_ref().map_or("-".into(), |c| format!("\"{c}\"")), vel, coor(&s.coords), track, details)
+}
+pub fn dump(a: &Airplanes) -> String {
+    let recs: Vec<String> = a.iter().map(|(k, s)| state(a, *k, s)).collect();
+    let allpos: Vec<String> = a.all_position().iter().map(|(k, _)| k.to_string()).collect();
+    format!("MAP n={} allpos={} | {}", a.len(), allpos.join(","), recs.join(" | "))
+}
+
+pub fn op(st: &mut State, args: &[&str]) -> String {
+    match args {
+        ["reset", lat, lon, range] => {
+            let (Ok(la), Ok(lo), Ok(r)) = (lat.parse::<f64>(), lon.parse::<f64>(), range.parse::<f64>()) else { return "BADOP".into() };
+            *st = State { a: Airplanes::new(), rx: (la, lo), range: r };
+            "OK".into()
+        }
+        ["act", h] => {
+            let Ok(b) = hex::decode(h) else { return "BADOP".into() };
+            match Frame::from_bytes(&b) {
+                Ok(f) => {
+                    let added = st.a.action(f, st.rx, st.range);
+                    format!("ADDED {} {}", if added == Added::Yes { "yes" } else { "no" }, dump(&st.a))
+                }
+                Err(e) => crate::canon::err(&e),
+            }
+        }
+        #[cfg(all(rsadsb_adsb_deku_verif, feature = "std"))]
+        ["age", ms] => {
+            let Ok(ms) = ms.parse::<u64>() else { return "BADOP".into() };
+            st.a.verif_age_all(std::time::Duration::from_millis(ms));
+            "OK".into()
+        }
+        #[cfg(feature = "std")]
+        ["prune", secs] => {
+            let Ok(s) = secs.parse::<u64>() else { return "BADOP".into() };
+            st.a.prune(s);
+            dump(&st.a)
+        }
+        ["dump"] => dump(&st.a),
+        _ => "BADOP".into(),
+    }
+}
